@@ -307,7 +307,7 @@ func (tb *traceBuilder) inline(f *ssa.Function, o *Origins, chain string, depth 
 		base := NewCut()
 		if srcCall != nil && outcome != "" {
 			// the tested error may merge the results of sibling calls (if / else assigning the same variable)
-			pos := o.AcceptEdges(&Cond{Name: "call succeeded", Match: func(ft *Fact, _ *Origins) bool {
+			pos := o.TestEdges(&Cond{Name: "call succeeded", Match: func(ft *Fact, _ *Origins) bool {
 				if ft.Kind != "errnil" || !ft.Pos {
 					return false
 				}
